@@ -151,11 +151,31 @@ def check(ctx, run):
     if pay is None:
         raise AnalysisError("anchor vanished: BaseDerivative.payoff")
     d = W.option()
-    r = [r for r in interp.explore(pay, [], {}, self_obj=d) if not r["raises"]][0]
-    v = r["value"]
+    try:
+        r = [r for r in interp.explore(pay, [], {}, self_obj=d) if not r["raises"]][0]
+        v = r["value"]
+    except Unsupported:
+        v = None   # a fold written with function composition has no summary for an unknown number of clauses: judged for three below
     ok = isinstance(v, Op) and v.op == "loop" and v.args[1] == ("symlist", "deriv.clauses") and isinstance(v.args[2], Op) and v.args[2].op == "abstract" and "payoff_fn" in str(v.args[2].args[0])
     upd = v.args[4] if ok else None
     ok = ok and isinstance(upd, Op) and upd.op == "call" and upd.args[0] == v.args[0] and len(upd.args) == 3 and upd.args[2] == v.args[3]
+    if not ok:
+        # not the loop `for clause in clauses(): payoff = clause(self, payoff)` (which settles any number of clauses): the same statement for a
+        # derivative with three registered clauses, whatever way the fold is written (reduce, composed closures, recursion)
+        d3 = W.option()
+        c3 = [Sym(f"deriv.clause{k_}", ("callable",)) for k_ in (1, 2, 3)]
+        d3.attrs["__clauses__"] = list(c3)
+        try:
+            r3 = [r_ for r_ in interp.explore(pay, [], {}, self_obj=d3) if not r_["raises"]]
+        except Unsupported as ex:
+            raise AnalysisError(f"BaseDerivative.payoff with three clauses: {ex}")
+        v = r3[0]["value"] if len(r3) == 1 else None
+        t_ = v
+        ok = v is not None
+        for c_ in reversed(c3):
+            ok = ok and isinstance(t_, Op) and t_.op == "call" and t_.args[0] == c_ and len(t_.args) == 3 and t_.args[1] is d3
+            t_ = t_.args[2] if ok else None
+        ok = ok and isinstance(t_, Op) and t_.op == "abstract" and "payoff_fn" in str(t_.args[0])
     run.oblige("C12.R3", "BaseDerivative.payoff folds clause(self, payoff) over clauses() from payoff_fn()", ok, str(v)[:200])
     if not ok:
         run.fail(Finding("C12.R3", pay.qualname, str(v)[:200], "payoff() must apply every clause once, in iteration order, starting from payoff_fn()", file=str(prog.modules[pay.module].path), line=pay.node.lineno))
